@@ -332,7 +332,7 @@ func expandMacros(text, pkg string, macros []*Macro) string {
 			if m == nil || loc[1] >= len(text) || text[loc[1]] != '(' {
 				continue
 			}
-			if loc[0] > 0 && (text[loc[0]-1] == '.' ) {
+			if loc[0] > 0 && (text[loc[0]-1] == '.') {
 				continue
 			}
 			// matching paren
